@@ -652,9 +652,13 @@ def replay(w):
     previous utterance (length, cuts, number of finalize calls) x next utterance; compare with a fresh instance bit for bit."""
     import numpy as np
     k = w['kind']
-    if k == 'ast':
-        return {'reproduced': True, 'detail': w['what']}
     rng = np.random.RandomState(11)
+    if k == 'ast':
+        # a state write in the per-frame routine invalidates the recorder abstraction; whether it breaks the property is
+        # decided on real computers (bounded history search), otherwise the finding stays without verdict
+        r = _replay_with('stft_dead', lambda: sc.real_stft(5, 2, 'centered', False), range(0, 17), [13, 5, 3, 15], rng)
+        r['detail'] = '%s; %s' % (w['what'], r['detail'])
+        return r
     if k == 'stft_dtype':
         L, S, style, kaldi = w['L'], w['S'], w['style'], w['kaldi']
         d1, d2 = (np.float32, np.float64) if w.get('first32', True) else (np.float64, np.float32)
